@@ -128,6 +128,17 @@ def pair_cases():
                    "words": {"1": (op1 << 12) | 100, "2": (op2 << 12) | 101, "3": 0x9000, "100": cell, "101": cell ^ 0x8001}}
 
 
+def loop_cases():
+    """Control flow that returns to where it is: a taken BRZ onto itself (at address 0 - the latched first instruction - and
+    elsewhere), a two-instruction loop, a BRZ that falls through onto itself's successor; each under every drive mode."""
+    for drive in ("step", "single", "halves"):
+        yield {"first": ["BRZ", 0], "len": 2, "accu": 0, "max": 7, "words": {"1": 0xC000}, "drive": drive}
+        yield {"first": ["NOP", None], "len": 3, "accu": 0, "max": 9, "words": {"1": 0x8001, "2": 0xC000}, "drive": drive}
+        yield {"first": ["ZRO", None], "len": 3, "accu": 5, "max": 9, "words": {"1": 0x8000, "2": 0xC000}, "drive": drive}
+        yield {"first": ["INC", None], "len": 3, "accu": 0xFFFE, "max": 12, "words": {"1": 0x8001, "2": 0x8000}, "drive": drive}
+        yield {"first": ["BRZ", 4095], "len": 2, "accu": 0, "max": 6, "words": {"4095": 0x8FFF}, "drive": drive}
+
+
 @st.composite
 def program_case(draw):
     n = draw(st.one_of(st.integers(1, 12), st.integers(1, 64), st.sampled_from([1, 2, 4096])))
@@ -176,17 +187,21 @@ def shards(tier, seed):
         for i in range(4):
             items.append({"what": "prog", "n": 400, "seed": seed * 1000 + i})
         items.append({"what": "pairs"})
+        items.append({"what": "loops"})
     else:
         for p in range(64):
             items.append({"what": "words", "range": [p * 1024, (p + 1) * 1024], "part": 0, "parts": 1, "label": "all 65536 words"})
         for i in range(32):
             items.append({"what": "prog", "n": 1250, "seed": seed * 1000 + i})
         items.append({"what": "pairs"})
+        items.append({"what": "loops"})
     return items
 
 
 def run_shard(item, stats):
     km = core.known_matcher(ID, globals().get("known_match"))
+    if item["what"] == "loops":
+        return core.run_cases(loop_cases(), check, stats, core.known_matcher(ID, globals().get("known_match")))
     if item["what"] == "pairs":
         core.run_cases(pair_cases(), check, stats, km, distinct=True)
         stats.exhaustive_parts.append("all 16 x 16 opcode pairs back to back x 6 boundary accu/operand combinations")
